@@ -345,6 +345,7 @@ def run(ctx, rep):
     ua, ub = used_outside(soft, sf), used_outside(simd, mf)
     rep.ob("SURFACE", "functions used by the rest of the crate", ua == ub and len(ua) >= 4, "software %s; SIMD %s" % (sorted(ua), sorted(ub)))
     accessors(rep, full)
+    resizers(rep, full)
 
 
 ACC_TRAITS = {"types::Bytes": ("as_slice", "len", "is_empty"), "types::MutBytes": ("as_mut_slice",),
@@ -408,6 +409,65 @@ def accessors(rep, prog):
             same = strip_views(root_a) == strip_views(root_l)
             rep.ob("ACCESSOR", "<%s as Bytes>::len == as_slice().len()" % st, same, "as_slice: %s; len: %s" % (a[:70], l[:70]), loc=methods["len"].loc())
     rep.floor("accessor methods", n, 40)
+
+
+RESIZE_CALLS = ("std::vec::Vec::<T, A>::resize", "types::ResizableBytes::resize")
+
+
+def resizers(rep, prog):
+    """RESIZE: every container's `ResizableBytes::resize(new_len, value)` ends with `new_len` bytes: each
+    normal return lies behind a resize of the underlying storage (Vec::resize or another container's
+    ResizableBytes::resize) to the `new_len` parameter.  The only path that may bypass it is the equal
+    edge of `new_len == <current length>` (nothing to do)."""
+    from ..inline import inline
+    n = 0
+    for imp in prog.impls:
+        if imp.get("trait") != "types::ResizableBytes":
+            continue
+        st = imp["self_ty"]["t"]
+        for it in imp["items"]:
+            if it["name"] != "resize":
+                continue
+            f0 = prog.by_key.get(it["key"])
+            if f0 is None:
+                continue
+            n += 1
+            f = inline(prog, f0)
+            new_len = 2           # positional in the public trait: (self, new_len, value)
+            sites = []
+            for c in f.calls():
+                if (c.path in RESIZE_CALLS or c.rpath in RESIZE_CALLS) and len(c.args) >= 2 and not f.blocks[c.bb]["cleanup"]:
+                    e = expr_of_operand(f, c.args[1])
+                    while e is not None and e.k == "cast":
+                        e = e.a
+                    if e is not None and e.k == "local" and e.a == new_len:
+                        sites.append(c.bb)
+            exempt = []
+            for b in range(f.n):
+                t = f.blocks[b]["t"]
+                if t["k"] != "switch":
+                    continue
+                e = expr_of_operand(f, t["x"])
+                if e.k == "binop" and e.a in ("Eq", "Ne"):
+                    sides = [e.b, e.c]
+                    is_new = [x.k == "local" and x.a == new_len for x in sides]
+                    is_len = [x.k == "call" and x.a.name == "len" for x in sides]
+                    if (is_new[0] and is_len[1]) or (is_new[1] and is_len[0]):
+                        arms = {v: tb for v, tb in t["arms"]}
+                        eq_t = t["otherwise"] if e.a == "Eq" else arms.get(0)
+                        ne_t = arms.get(0) if e.a == "Eq" else t["otherwise"]
+                        if eq_t is not None and eq_t != ne_t:
+                            exempt.append((b, eq_t))
+            rets = [b for b in range(f.n) if f.blocks[b]["t"]["k"] == "return"]
+            free = f.reachable(0, cut_blocks=sites, cut_edges=exempt)
+            bad = [b for b in rets if b in free]
+            why = "every return lies behind a resize of the storage to `new_len` (%d site(s))" % len(sites)
+            if bad:
+                path = f.path_between(0, bad[0], cut_blocks=sites, cut_edges=exempt) or []
+                sw = [f.loc(b) for b in path if f.blocks[b]["t"]["k"] == "switch"]
+                why = "a path returns without resizing the storage to `new_len` (branching at %s): the container keeps its old length" % (sw[-1:] or [f.loc(bad[0])])
+            rep.ob("RESIZE", "<%s as ResizableBytes>::resize" % st, bool(sites) and not bad, why, loc=f.loc(bad[0]) if bad else f0.loc())
+    rep.floor("ResizableBytes::resize impls", n, 3)
 
 
 PURE_READS = ("core::slice::<impl [T]>::len", "std::vec::Vec::<T, A>::len", "core::slice::<impl [T]>::is_empty",
